@@ -937,3 +937,86 @@ mod tests {
   }
 }
 
+
+// Verification hook (no behaviour change): a public scripted-driver trait,
+// an adapter onto the private Driver trait, and a public wrapper around the
+// private per-device loop; plus wrappers for the two exclusion functions.
+#[cfg(ellbur_totalmapper_verif)]
+pub mod verif {
+  use super::*;
+  
+  #[derive(Debug, Clone, PartialEq, Eq)]
+  pub enum VDevice { Keyboard, Tablet }
+  
+  #[derive(Debug, Clone, PartialEq, Eq)]
+  pub enum VPollResult { DeviceEvent(Vec<VDevice>), TimedOut, Interrupted }
+  
+  #[derive(Debug, Clone, PartialEq, Eq)]
+  pub enum VNext<T> { End, Busy, One(T) }
+  
+  pub trait ScriptedDriver {
+    fn register_poll(&mut self) -> Result<(), String>;
+    fn poll(&mut self, timeout: Option<Duration>) -> Result<VPollResult, String>;
+    fn next_keyboard(&mut self) -> Result<VNext<Event>, String>;
+    // true = tablet mode switched on, false = switched off
+    fn next_tablet(&mut self) -> Result<VNext<bool>, String>;
+    fn send(&mut self, evs: &Vec<Event>) -> Result<(), String>;
+  }
+  
+  struct Adapter<'a, D: ScriptedDriver> { inner: &'a mut D }
+  
+  impl<'a, D: ScriptedDriver> Driver for Adapter<'a, D> {
+    type PollRegistry = ();
+    
+    fn register_poll(&mut self) -> Result<(), String> {
+      self.inner.register_poll()
+    }
+    
+    fn poll(&mut self, _registry: &mut (), timeout: Option<Duration>) -> Result<PollResult, String> {
+      Ok(match self.inner.poll(timeout)? {
+        VPollResult::DeviceEvent(devs) => PollResult::DeviceEvent(devs.into_iter().map(|d| match d {
+          VDevice::Keyboard => Device::Keyboard,
+          VDevice::Tablet => Device::Tablet
+        }).collect()),
+        VPollResult::TimedOut => PollResult::TimedOut,
+        VPollResult::Interrupted => PollResult::Interrupted
+      })
+    }
+    
+    fn next_keyboard(&mut self) -> Result<Next<Event>, String> {
+      Ok(match self.inner.next_keyboard()? {
+        VNext::End => Next::End,
+        VNext::Busy => Next::Busy,
+        VNext::One(ev) => Next::One(ev)
+      })
+    }
+    
+    fn next_tablet(&mut self) -> Result<Next<TableModeEvent>, String> {
+      Ok(match self.inner.next_tablet()? {
+        VNext::End => Next::End,
+        VNext::Busy => Next::Busy,
+        VNext::One(true) => Next::One(TableModeEvent::On),
+        VNext::One(false) => Next::One(TableModeEvent::Off)
+      })
+    }
+    
+    fn send(&mut self, evs: &Vec<Event>) -> Result<(), String> {
+      self.inner.send(evs)
+    }
+  }
+  
+  pub fn run_one_device<D: ScriptedDriver>(driver: &mut D, layout: Layout, verbose: bool) -> Result<(), String> {
+    let mut adapter = Adapter { inner: driver };
+    do_remapping_loop_one_device(&mut adapter, layout, verbose)
+  }
+  
+  // (device name, excluded) for the keyboards listed by --all-keyboards
+  pub fn flag_excluded_names(devices: Vec<ExtractedKeyboard>, excludes: &[&str]) -> Vec<(String, bool)> {
+    flag_excluded(devices, excludes).into_iter().map(|d| (d.extracted_keyboard.name, d.excluded)).collect()
+  }
+  
+  // (device name, excluded) for the input devices consulted by --dev-file
+  pub fn flag_excluded_input_device_names(devices: Vec<ExtractedInputDevice>, excludes: &[&str]) -> Vec<(String, bool)> {
+    flag_excluded_input_devices(devices, excludes).into_iter().map(|d| (d.extracted_keyboard.name, d.excluded)).collect()
+  }
+}
